@@ -1,5 +1,6 @@
 """C17 - Meta table: exactly the registered types, once each, with the right vtable."""
 from .. import anchors as A
+from .. import semq as Q
 from .. import shared as S
 from .. import worldrules as W
 from .. import witness
@@ -156,58 +157,81 @@ def register(ctx, report, facts, config, rule="C17.REGISTER"):
     report.floor(rule, "mutating accesses to the three tables", n, 4, config=config)
 
 
+def _only_from(t, leaf):
+    """Every leaf of the term is `leaf` (constants aside): the value derives from it alone."""
+    if not isinstance(t, tuple) or not t:
+        return True
+    if t == leaf:
+        return True
+    if t[0] in ("int", "const"):
+        return True
+    if t[0] in ("param", "upvar", "undef", "elem", "lvar", "lexit", "havoc", "fnref", "closure"):
+        return False
+    subs = [x for x in t[1:] if isinstance(x, tuple)]
+    if t[0] == "call":
+        subs = list(t[2])
+        if not subs:
+            return False
+    if t[0] == "agg":
+        subs = list(t[3])
+    return all(_only_from(x, leaf) for x in subs)
+
+
 def lookup(ctx, report, facts, config, rule="C17.LOOKUP"):
-    prog = ctx.program(facts)
+    """get / get_mut: the index found for `res.type_id()` selects the vtable entry that is re-attached to `res` itself."""
     vt = vt_field(facts)
     for name in ("get", "get_mut"):
         b = facts.one(MT + "::" + name)
         report.touched(b, config)
-        bt = prog.bt(b)
+        ev, ends = Q.sem(ctx, facts, b)
         problems = []
-        tids = [(bb, Callee(t["func"])) for bb, t in b.normal_calls() if Callee(t["func"]).name == "type_id"]
-        if len(tids) != 1 or "dyn " not in (tids[0][1].self_arg_s or "") or "Box" in (tids[0][1].self_arg_s or ""):
-            problems.append("type_id is not taken from the `dyn Resource` itself (%s)" % [c.self_arg_s for _, c in tids])
-        elif bt.call_args(tids[0][0])[0] != ("param", 2):
-            problems.append("type_id is not taken from the `res` argument")
-        ret = bt.local(0)
-        okr = (ret[0] == "call" and bt.callee(ret[1]).name == "map" and ret[2][0][0] == "call" and bt.callee(ret[2][0][1]).name == "get"
-               and S.crate_fields(S.table_access(b, ret[2][0][2][0])[0]) == [(MT, "indices")]
-               and tids and ret[2][0][2][1][:2] == ("call", tids[0][0]))
-        if not okr:
-            problems.append("the result is not indices.get(&res.type_id()).map(..)")
-        clos = facts.closures_of(b, False)
-        if len(clos) != 1:
-            problems.append("expected one closure")
-        else:
-            cb = clos[0]
-            report.touched(cb, config)
-            cbt = prog.bt(cb)
-            # vtable entry: vtable table indexed by the closure's argument
-            idxs = []
-            for bb, t in cb.normal_calls():
-                c = Callee(t["func"])
-                if c.name in ("index", "index_mut") and not c.local:
-                    f_, i_, base = S.table_access(cb, cbt.call_term(bb))
-                    idxs.append((S.crate_fields(f_), i_, base))
-            if not (len(idxs) == 1 and idxs[0][0] == [(MT, vt)] and idxs[0][2] == ("upvar", "self") and root(idxs[0][1][0], cbt, facts.crate)[0] == ("param", 2)):
+        n_some = n_none = 0
+        for e in ends:
+            if e.kind != "return":
+                problems.append("the lookup can panic")
+                continue
+            events = [x for x in W._deep(e.path.events) if x[0] == "call"]
+            tids = [x for x in events if x[2].name == "type_id"]
+            if len(tids) != 1 or "dyn " not in (ev.self_arg(tids[0][4]) or "") or "Box" in (ev.self_arg(tids[0][4]) or ""):
+                problems.append("type_id is not taken from the `dyn Resource` itself (%s)" % [ev.self_arg(x[4]) for x in tids])
+                continue
+            if Q.strip(ev, tids[0][3][0]) != ("param", 2):
+                problems.append("type_id is not taken from the `res` argument")
+            gets = [x for x in events if x[2].name == "get" and not x[2].local and Q.crate_fields(Q.table_access(ev, x[3][0])[0]) == [(MT, "indices")]]
+            if len(gets) != 1 or Q.strip(ev, gets[0][3][1]) != tids[0][4]:
+                problems.append("the result is not decided by indices.get(&res.type_id())")
+                continue
+            found = e.path.variant(gets[0][4])
+            r = e.ret
+            if r[0] == "agg" and r[2] == "std::option::Option::None":
+                n_none += 1
+                if found != "None":
+                    problems.append("None is returned although the type is registered")
+                continue
+            if not (r[0] == "agg" and r[2] == "std::option::Option::Some"):
+                problems.append("the result is not an Option decided by the lookup")
+                continue
+            n_some += 1
+            if found != "Some":
+                problems.append("a reference is returned although the type is not registered")
+            idx = ("field", ("variant", gets[0][4], "Some"), "0", "std::option::Option")
+            att = [x for x in events if x[2].name in ("<indirect>", "from_raw_parts", "from_raw_parts_mut")]
+            if len(att) != 1:
+                problems.append("expected exactly one re-attachment of the vtable, found %d" % len(att))
+                continue
+            a = att[0][3]
+            entry, ptr = (a[0], a[1]) if att[0][2].name == "<indirect>" else (a[1], a[0])
+            f_, i_, base = Q.table_access(ev, entry)
+            if not (Q.crate_fields(f_) == [(MT, vt)] and base == ("param", 1) and len(i_) == 1 and Q.strip(ev, i_[0]) == idx):
                 problems.append("the vtable entry is not self.%s[looked-up index]" % vt)
-            # the pointer handed to the vtable function derives only from `res`
-            ind = [bb for bb, t in cb.calls() if Callee(t["func"]).indirect or Callee(t["func"]).name in ("from_raw_parts", "from_raw_parts_mut")]
-            if len(ind) != 1:
-                problems.append("expected exactly one re-attachment of the vtable, found %d" % len(ind))
-            else:
-                args = cbt.call_args(ind[0])
-                ptr = args[0]
-                leaves = prog.origins(cb, ptr)
-                leaves = set(l for l in leaves if l[0] not in ("scalar", "int"))
-                okp = all(l[0] == "param" and l[1] == b.key and l[2] == 2 for l in leaves) and leaves
-                if not okp:
-                    problems.append("the data pointer does not derive from `res` alone (%s)" % sorted(leaves))
-                rr = cbt.local(0)
-                if root(rr, cbt, facts.crate)[0][:2] != ("call", ind[0]):
-                    problems.append("the returned reference is not the re-attached pointer")
-        report.ob(rule, name, not problems, "; ".join(problems) if problems else
-                  "indices.get(&res.type_id()).map(|&i| self.%s[i] applied to `res` cast to *mut ())" % vt, site=b.loc(), config=config)
+            if not _only_from(ptr, ("param", 2)):
+                problems.append("the data pointer does not derive from `res` alone")
+            if Q.strip(ev, r[3][0]) != att[0][4]:
+                problems.append("the returned reference is not the re-attached pointer")
+        if not (n_some >= 1 and n_none >= 1):
+            problems.append("expected a Some and a None outcome, found %d/%d" % (n_some, n_none))
+        report.ob(rule, name, not problems, "; ".join(sorted(set(problems))) if problems else
+                  "indices.get(&res.type_id()): None if unregistered, else self.%s[i] applied to `res` cast to *mut ()" % vt, site=b.loc(), config=config)
 
 
 def attach(ctx, report, facts, config, rule="C17.ATTACH"):
@@ -370,11 +394,27 @@ def sibling(ctx, report, facts, config, rule="C17.SIBLING"):
     sb = [x for x in sb if x not in ("cast*",)]
     report.ob(rule, "MetaIter::next~MetaIterMut::next", sa == sb, "equal skeletons modulo shared<->exclusive (%d calls)" % len(sa) if sa == sb else "iterators diverge: %s vs %s" % (sa, sb), site=b.loc(), config=config)
     g, gm = facts.one(MT + "::get"), facts.one(MT + "::get_mut")
-    sa = W.skeleton(g) + [x for c in facts.closures_of(g) for x in W.skeleton(c)]
-    sb = W.skeleton(gm) + [x for c in facts.closures_of(gm) for x in W.skeleton(c)]
-    sa = [x for x in sa if x not in ("cast*",)]
-    sb = [x for x in sb if x not in ("cast*",)]
-    report.ob(rule, "get~get_mut", sa == sb, "equal skeletons (%d calls)" % len(sa) if sa == sb else "get / get_mut diverge: %s vs %s" % (sa, sb), site=gm.loc(), config=config)
+
+    def sk(b):
+        ev, ends = Q.sem(ctx, facts, b)
+        out = []
+        for e in ends:
+            names = []
+            for x in W._deep(e.path.events):
+                if x[0] != "call":
+                    continue
+                n = x[2].name or "?"
+                for a_, b_ in W.NORMALISE:
+                    if n == a_:
+                        n = b_
+                        break
+                if n in W.SEMANTIC_CALLS and n not in ("deref", "deref_mut", "clone", "cast*"):
+                    names.append(n)
+            out.append((e.kind, e.ret[2] if e.ret and e.ret[0] == "agg" else None, tuple(names)))
+        return sorted(out, key=str)
+
+    sa, sb = sk(g), sk(gm)
+    report.ob(rule, "get~get_mut", sa == sb, "equal outcomes and call skeletons (%d paths)" % len(sa) if sa == sb else "get / get_mut diverge: %s vs %s" % (sa, sb), site=gm.loc(), config=config)
 
 
 def run(ctx, report):
